@@ -267,6 +267,9 @@ def r06_3_dominance(ctx, A, chk, add, ins):
             # mode constant
             t = calls[ic][4]
             bool_args = [a for a in calls[ic][3] if a[0] == 'const']
+            if not bool_args:
+                ctx.undecided('R06.5', 'mode-const:' + f.path, 'the duplicate mode handed to the ordering check is not a boolean literal (the check was redesigned): %s' % [fmt(a)[:30] for a in calls[ic][3]], fn=f, at=t.get('span'))
+                continue
             ctx.check('R06.5', bool_args and bool_args[-1] == ('const', mode), 'mode-const:' + f.path,
                       '%s runs the ordering check with duplicate mode %s (contract: %s)' % (f.path, fmt(bool_args[-1]) if bool_args else '?', bool(mode)), fn=f, at=t.get('span'))
         # the check's result is propagated with `?`
